@@ -8,6 +8,8 @@ import (
 	"fmt"
 	"net"
 	"net/http"
+	"os"
+	"strings"
 	"sync"
 	"sync/atomic"
 	"syscall"
@@ -390,6 +392,10 @@ func (p *Peer) serveWS(pc *peerConn) {
 		if !ok || used != len(data) || len(fs) != 1 {
 			p.T.ev("peer.ws_message_not_one_frame", "conn", pc.N, "frames", len(fs), "len", len(data))
 		}
+		if mt != websocket.BinaryMessage {
+			// the protocol's frames are binary data whatever the body codec: a text message must be valid UTF-8 for a conforming peer
+			p.T.ev("peer.ws_frame_in_text_message", "conn", pc.N, "len", len(data))
+		}
 		for _, f := range fs {
 			f.WsKind = "binary"
 			p.deliver(pc, f)
@@ -450,3 +456,37 @@ func respFrame(f frameIn, st uint8, body []byte) specFrame {
 	return specFrame{typ: 2, cmd: f.Cmd, rid: f.Rid, st: st, body: body}
 }
 func pushFrame(cmd int, body []byte) specFrame { return specFrame{typ: 3, cmd: cmd, body: body} }
+
+// kernelState reports the kernel's TCP state of the peer-side socket of this connection ("01" established, "08" close-wait, …; "" when
+// the socket is gone). It lets a scenario see that the client released its socket although the scripted peer is not reading.
+func (pc *peerConn) kernelState() string {
+	var la, ra net.Addr
+	if pc.ws != nil {
+		la, ra = pc.ws.UnderlyingConn().LocalAddr(), pc.ws.UnderlyingConn().RemoteAddr()
+	} else if pc.c != nil {
+		la, ra = pc.c.LocalAddr(), pc.c.RemoteAddr()
+	}
+	l, ok1 := la.(*net.TCPAddr)
+	r, ok2 := ra.(*net.TCPAddr)
+	if !ok1 || !ok2 {
+		return "?"
+	}
+	hex := func(a *net.TCPAddr) string {
+		ip := a.IP.To4()
+		if ip == nil {
+			return ""
+		}
+		return fmt.Sprintf("%02X%02X%02X%02X:%04X", ip[3], ip[2], ip[1], ip[0], a.Port)
+	}
+	data, err := os.ReadFile("/proc/net/tcp")
+	if err != nil {
+		return "?"
+	}
+	for _, line := range strings.Split(string(data), "\n") {
+		f := strings.Fields(line)
+		if len(f) > 3 && f[1] == hex(l) && f[2] == hex(r) {
+			return f[3]
+		}
+	}
+	return ""
+}
